@@ -57,6 +57,15 @@ func (t typeSpec) softType() jsonapi.Type {
 			if t.noFrom {
 				from = ""
 			}
+			if f.target == "" {
+				// a relationship without a target type: Type.AddRel refuses it, a type
+				// written by hand (or extended through SoftResource.AddRel) may hold it
+				if typ.Rels == nil {
+					typ.Rels = map[string]jsonapi.Rel{}
+				}
+				typ.Rels[f.name] = jsonapi.Rel{FromType: from, FromName: f.name, ToOne: f.toOne, ToName: f.inv}
+				continue
+			}
 			_ = typ.AddRel(jsonapi.Rel{FromType: from, FromName: f.name, ToOne: f.toOne, ToType: f.target, ToName: f.inv})
 		} else {
 			_ = typ.AddAttr(jsonapi.Attr{Name: f.name, Type: f.code, Nullable: f.nullable})
